@@ -404,23 +404,33 @@ theorem solve_traj_invN {st : Settings α} {G : List (ConeT α) → Vars α → 
   unfold Solver.solve at hr
   obtain ⟨L, hL, hr⟩ := bind_ok_inv hr
   obtain ⟨q, hq, hr⟩ := bind_ok_inv hr
+  obtain ⟨dN, hdN, hr⟩ := bind_ok_inv hr
   cases hr
   show ∀ p ∈ L.traj, _
   exact (runSolve_traj_invN hG hI hS hL).1
 
-/-- [S] the solver object a `solve()` returns has the cone layout, the data and the cone sizes of the
-one it started from, and sized residuals (the returned `variables` are the un-scaled iterate, whose
+/-- [S] the solver object a `solve()` returns has the cone layout, the data (with the two norm caches
+filled: `Solver.fillNorms`) and the cone sizes of the one it started from, and sized residuals (the returned `variables` are the un-scaled iterate, whose
 lengths are those of the iterate whenever `post_process` succeeds: `Solver.postProcess_shape`) -/
 theorem solve_sizedN {st : Settings α} {S : Solver α} {r : SolveResult α}
     (hS : SizedN S.st) (hr : S.solve st = .ok r) :
-    SizedN r.S.st ∧ r.S.st.data = S.st.data ∧ layoutN r.S.st = layoutN S.st := by
+    SizedN r.S.st ∧ Clarabel.Solver.fillNorms S.st.data = .ok r.S.st.data
+      ∧ layoutN r.S.st = layoutN S.st := by
   unfold Solver.solve at hr
   obtain ⟨L, hL, hr⟩ := bind_ok_inv hr
   obtain ⟨q, hq, hr⟩ := bind_ok_inv hr
+  obtain ⟨dN, hdN, hr⟩ := bind_ok_inv hr
   cases hr
   unfold finish at hq
   obtain ⟨u, hu, hq⟩ := bind_ok_inv hq
   cases hq
+  -- the data of the returned object: the data at entry with the two norm caches filled
+  have hdN' := hdN
+  unfold Clarabel.Solver.fillNorms at hdN'
+  obtain ⟨nq, hnq, hdN'⟩ := bind_ok_inv hdN'
+  obtain ⟨nb, hnb, hdN'⟩ := bind_ok_inv hdN'
+  have edN : dN = { (finishInfo st L).data with normq := some nq, normb := some nb } :=
+    (Except.ok.inj hdN').symm
   have hTrue : StepHypN st (fun _ _ => True) := fun _ _ _ _ _ _ _ _ _ _ _ _ _ _ _ => trivial
   obtain ⟨-, f1, f2, f3⟩ := runSolve_traj_invN (G := fun _ _ => True) hTrue (fun _ _ => trivial) hS hL
   have hc : (finishInfo st L).cones = L.S.cones := finishInfo_cones st L
@@ -430,8 +440,8 @@ theorem solve_sizedN {st : Settings α} {S : Solver α} {r : SolveResult α}
   have hres : (finishInfo st L).residuals = L.S.residuals := by
     unfold finishInfo; dsimp only; split <;> rfl
   have hps := (Solver.postProcess_shape hu).1
-  refine ⟨?_, ?_, ?_⟩
-  · refine sized_of_parts (S := L.S) f1 hd ?_ ?_ ?_ ?_
+  have hT : SizedN ({ finishInfo st L with «variables» := u.2 } : SolverSt α) := by
+    refine sized_of_parts (S := L.S) f1 hd ?_ ?_ ?_ ?_
     · show VarsShape L.S.variables u.2
       rw [← hv]; exact hps
     · show (finishInfo st L).residuals.rx.size = _ ∧ _
@@ -440,8 +450,11 @@ theorem solve_sizedN {st : Settings α} {S : Solver α} {r : SolveResult α}
       rw [hc]; exact ConesShape.rfl' _
     · show ConesFull (finishInfo st L).cones
       rw [hc]; exact f1.full
-  · show (finishInfo st L).data = _
-    rw [hd]; exact f2
+  refine ⟨?_, ?_, ?_⟩
+  · subst edN
+    exact ⟨hT.vars, hT.resid, hT.numel, hT.full⟩
+  · have e : (finishInfo st L).data = S.st.data := by rw [hd]; exact f2
+    rw [← e]; exact hdN
   · show (finishInfo st L).cones.map ConeSt.typ = _
     rw [hc]; exact f3
 
